@@ -340,6 +340,9 @@ def op_mbi_config(o: dict) -> dict:
         "certBlock": "cert_v1_4x2048.yaml",
         "outputImageEncryptionKeyFile": "24e517d4ac417737235b6efc9afced8224e517d4ac417737235b6efc9afced82",
     }
+    if o.get("reuse_config"):
+        # a batch build keeps one configuration dictionary and builds one image after the other from it
+        cfg = SHARED.setdefault("mbi_cfg", cfg)
     cls = get_mbi_class(cfg)
     if o.get("reuse_object"):
         # a batch build keeps one image object and loads one configuration after the other into it
@@ -549,7 +552,9 @@ def op_bee_config(o: dict) -> dict:
     sel = o.get("engines", "engine0")
     eng = []
     empty_key = bool(o.get("empty_key"))  # an empty user key asks SPSDK to choose the SW key as well
-    for i in range(2 if sel == "both" else 1):
+    for i in ([0, 1] if sel == "both" else [1] if sel == "engine1" else [0]):
+        # each engine protects its own region (a build that selects one engine never collides with what another build,
+        # earlier in the same process, configured for the other one)
         eng.append({"bee_cfg": {"user_key": "" if empty_key else _explicit(o.get("x", 0) + 500, 16).hex(), "protected_region": [{"start_address": 0x6000_1000 + i * 0x1000, "length": 0x400, "protected_level": 0}]}})
     cfg = {"input_binary": "app.bin", "engine_selection": sel, "base_address": 0x6000_1000, "bee_engine": eng}
     if empty_key and o.get("reuse_config"):
